@@ -18,8 +18,10 @@ structure Acc where
   kinds : List (String × Nat) := []
   /-- violation signatures with count and up to three example messages (known-findings are matched on the signature) -/
   sigs : List (String × Nat × List String) := []
-  /-- distinct case keys seen / how many of them non-trivial by the handler's stated rule -/
-  seen : Std.HashSet String := {}
+  /-- distinct cases seen / how many of them non-trivial by the handler's stated rule; the set of
+  seen cases itself is threaded through the main loop (keyed by the hash of the trace line), the
+  handler only says whether the case is non-trivial -/
+  pendingNt : Option Bool := none
   distinct : Nat := 0
   nontrivial : Nat := 0
   /-- free-form branch / outcome counters (input distribution for the evidence) -/
@@ -50,10 +52,8 @@ def Acc.violationSig (a : Acc) (sig msg : String) : Acc :=
 
 def Acc.violation (a : Acc) (msg : String) : Acc := a.violationSig "unclassified" msg
 
-/-- record one explored case: `key` identifies it (distinctness), `nt` says whether it is non-trivial -/
-def Acc.note (a : Acc) (key : String) (nt : Bool) : Acc :=
-  if a.seen.contains key then a else
-  { a with seen := a.seen.insert key, distinct := a.distinct + 1, nontrivial := a.nontrivial + (if nt then 1 else 0) }
+/-- record whether the explored case is non-trivial (distinctness is decided by the main loop) -/
+def Acc.note (a : Acc) (nt : Bool) : Acc := { a with pendingNt := some nt }
 
 def Acc.tag (a : Acc) (t : String) : Acc := { a with tags := bumpAssoc a.tags t }
 
